@@ -1,3 +1,4 @@
+import Sparrow.Proofs.KernelCorollaries
 import Sparrow.Proofs.KernelEquiv
 import Sparrow.Proofs.PipelineEnergy
 import Sparrow.Proofs.Support
@@ -163,3 +164,32 @@ theorem collectReceiverEnergy_eq (P B S : Nat) (E : Nat → Nat → Nat → ℝ)
   Sparrow.collectReceiverEnergy_eq P B S E s0 dist c dt s1 att i b t hi hb
 
 end Sparrow.Props.C02.Kernels
+
+namespace Sparrow.Props.C02.Translated
+open Sparrow Sparrow.Generated.Kernels
+
+/-- C02: a call with a shorter histogram returns the first bins of the longer call (nothing is
+    folded back, nothing arrives earlier). -/
+theorem energyExchange_prefix (S S' P D B : Nat) (hS : S' ≤ S) (e0 : Nat → Nat → Nat → ℝ)
+    (s0 : Nat) (distance_0 : Nat → ℝ) (s1 s2 : Nat) (distance_ij : Nat → Nat → ℝ)
+    (P' : Nat) (fft : Nat → Nat → Nat → Nat → ℝ) (s3 s4 : Nat) (p2o : Nat → Nat → Nat)
+    (c dt : ℝ) (K nVis s5 : Nat) (vp : Nat → Nat → Nat) (b : Nat)
+    (hwf : (exSceneOfArgs S P D e0 distance_0 distance_ij fft p2o c dt nVis vp b).WF)
+    (j d t : Nat) (hj : j < P) (hd : d < D) (ht : t < S') :
+    energyExchange S' P D B e0 s0 distance_0 s1 s2 distance_ij P P' D B fft s3 s4 p2o c dt K nVis s5 vp j d b t =
+      energyExchange S P D B e0 s0 distance_0 s1 s2 distance_ij P P' D B fft s3 s4 p2o c dt K nVis s5 vp j d b t :=
+  Sparrow.energyExchange_prefix S S' P D B hS e0 s0 distance_0 s1 s2 distance_ij P' fft s3 s4 p2o c dt K nVis s5 vp b hwf j d t hj hd ht
+
+/-- C02: no bin before the first arrival: with every delay at least `m` bins (source leg) nothing
+    is non-zero before bin `m`. -/
+theorem energyExchange_nothing_early (S P D B : Nat) (e0 : Nat → Nat → Nat → ℝ)
+    (s0 : Nat) (distance_0 : Nat → ℝ) (s1 s2 : Nat) (distance_ij : Nat → Nat → ℝ)
+    (P' : Nat) (fft : Nat → Nat → Nat → Nat → ℝ) (s3 s4 : Nat) (p2o : Nat → Nat → Nat)
+    (c dt : ℝ) (K nVis s5 : Nat) (vp : Nat → Nat → Nat) (b : Nat)
+    (hwf : (exSceneOfArgs S P D e0 distance_0 distance_ij fft p2o c dt nVis vp b).WF)
+    (m : Nat) (hm : ∀ i, i < P → m ≤ ToBin.floorNat (distance_0 i / c / dt))
+    (j d t : Nat) (hj : j < P) (hd : d < D) (ht : t < S) (htm : t < m) :
+    energyExchange S P D B e0 s0 distance_0 s1 s2 distance_ij P P' D B fft s3 s4 p2o c dt K nVis s5 vp j d b t = 0 :=
+  Sparrow.energyExchange_nothing_early S P D B e0 s0 distance_0 s1 s2 distance_ij P' fft s3 s4 p2o c dt K nVis s5 vp b hwf m hm j d t hj hd ht htm
+
+end Sparrow.Props.C02.Translated
